@@ -713,7 +713,8 @@ impl<'h> Exec<'h> {
             .unwrap_or(4);
         let byte_thresholds = self.h.opt("--l0-write-stall-threshold-bytes").is_some()
             || self.h.opt("--l0-mandatory-compaction-threshold-bytes").is_some();
-        // files the level-0 compaction needs: all of level 0 plus what it overlaps in level 1
+        // files the level-0 compaction needs: all of level 0 plus what it overlaps in level 1,
+        // the key range growing with every level-1 table it takes in (as compute_bounds does)
         let needed = self
             .store
             .as_ref()
@@ -722,15 +723,30 @@ impl<'h> Exec<'h> {
                 let lo = levels[0].iter().map(|f| f.1.clone()).min();
                 let hi = levels[0].iter().map(|f| f.2.clone()).max();
                 match (lo, hi) {
-                    (Some(lo), Some(hi)) => {
-                        levels[0].len() + levels[1].iter().filter(|f| f.1 <= hi && lo <= f.2).count()
-                    }
+                    (Some(mut lo), Some(mut hi)) => loop {
+                        let mut n = 0;
+                        let (mut lo2, mut hi2) = (lo.clone(), hi.clone());
+                        for f in levels[1].iter().filter(|f| f.1 <= hi && lo <= f.2) {
+                            n += 1;
+                            lo2 = lo2.min(f.1.clone());
+                            hi2 = hi2.max(f.2.clone());
+                        }
+                        if lo2 == lo && hi2 == hi {
+                            break levels[0].len() + n;
+                        }
+                        lo = lo2;
+                        hi = hi2;
+                    },
                     _ => 0,
                 }
             })
             .unwrap_or(0);
         let _ = l0;
-        let relation = if mcf_n < 2 {
+        let mof_n: Option<usize> = mof.parse().ok();
+        let relation = if mof_n.map(|m| needed >= m).unwrap_or(false) {
+            // `may_choose_compaction` refuses inputs + ongoing >= max_open_files (finding F-C20-4)
+            "relieving-compaction-needs-at-least-max-open-files"
+        } else if mcf_n < 2 {
             "no-merging-compaction-permitted"
         } else if needed > mcf_n {
             "relieving-compaction-needs-more-files-than-max-compaction-files"
